@@ -21,7 +21,7 @@ def run(ctx: Ctx):
     ctx.exhaustive_domain = ('selection loop: every input of Selector.tla for 3 features x measure levels {undefined, 1, 2, 3} x pairwise associations '
                              '{below, at, above the threshold} x n_best 1..3' + ('' if ctx.tier == 'quick' else ' and for 4 features x levels {undefined, 1, 2} x '
                              'associations {below, above} x n_best 1..3') + ', replayed through the real selector with table-driven measure and correlation')
-    sc.select_cases(ctx, ['C14_'], 500, 5000)
+    sc.select_cases(ctx, ['C14_'], 1000, 5000)
 
 
 def replay(ctx: Ctx, rep: dict):
